@@ -95,11 +95,13 @@ Definition flags_permitted (a : args) (physb : str -> list str) (t : otree) : bo
 Definition no_vars_without_grant (a : args) (gtv : bool) (t : otree) : bool :=
   (a_tv a || gtv) || forallb (fun c => let '(v, _, _) := c in match v with None => true | Some _ => false end) (tree_tpl_caps t).
 
+(* `unsandboxed`: some template object of the loaded pipeline evaluates its template outside Jinja2's sandbox
+   (a document could then reach os / subprocess from the template text: an ungated effect) *)
 Definition spec_ok (a : args) (gext gtv : bool) (physb : str -> list str)
-           (t : option otree) (trace : list effect) (leak : bool) : bool :=
+           (t : option otree) (trace : list effect) (leak unsandboxed : bool) : bool :=
   forallb (effect_permitted a gext gtv physb) trace &&
   match t with Some t => flags_permitted a physb t && no_vars_without_grant a gtv t | None => true end &&
-  implb leak (a_ext a || gext).
+  implb leak (a_ext a || gext) && negb unsandboxed.
 
 (* ---------- documents equal up to the opt-in keys at item positions ---------- *)
 (* strip_doc removes the three opt-in keys from every transformation and post-processing item (recursively
